@@ -250,17 +250,29 @@ func c06RangeBodyKinds(fd *ast.FuncDecl) []string {
 // source order. The lock held is the most recent Lock/RLock call whose unlock is deferred or has
 // not been reached yet ("-" = none).
 func c06Access(fd *ast.FuncDecl) []string {
-	classify := map[string]string{
-		"consumedSeq.Load": "R consumedSeq", "f.ConsumedSeq": "R consumedSeq", "consumedSeq.Store": "W consumedSeq",
-		"acknowledgedSeq.Load": "R acknowledgedSeq", "f.AcknowledgedSeq": "R acknowledgedSeq",
-		"fo.AcknowledgedSeq": "R acknowledgedSeq", "acknowledgedSeq.Store": "W acknowledgedSeq",
-		"metaPage.PutUint64": "W metaPage", "metaPage.ReadUint64": "R metaPage", "metaPage.Sync": "C msync",
-		"q.Queue().AppendedSeq": "R queue.appendedSeq", "queue.AppendedSeq": "R queue.appendedSeq",
-		"q.Queue().AcknowledgedSeq": "R queue.acknowledgedSeq",
-		"queue.SetAcknowledgedSeq": "W queue.acknowledgedSeq", "queue.SetAppendedSeq": "W queue.appendedSeq",
-		"fo.SetSeq": "C SetSeq", "f.consume": "C consume", "f.Queue().Queue().NotEmpty": "C NotEmpty",
-		"newConsumerGroupFunc": "C NewConsumerGroup", "consumerGroup.Close": "C Close", "delete": "W consumerGroups",
-	}
+	return c06AccessWith(fd, c06GroupClassify)
+}
+
+// c06QueueClassify: the shared fields of `queue` itself (SetAcknowledgedSeq / SetAppendedSeq).
+var c06QueueClassify = map[string]string{
+	"acknowledgedSeq.Load": "R acknowledgedSeq", "acknowledgedSeq.Store": "W acknowledgedSeq",
+	"appendedSeq.Load": "R appendedSeq", "appendedSeq.Store": "W appendedSeq",
+	"metaPage.PutUint64": "W metaPage", "metaPage.Sync": "C msync",
+}
+
+var c06GroupClassify = map[string]string{
+	"consumedSeq.Load": "R consumedSeq", "f.ConsumedSeq": "R consumedSeq", "consumedSeq.Store": "W consumedSeq",
+	"acknowledgedSeq.Load": "R acknowledgedSeq", "f.AcknowledgedSeq": "R acknowledgedSeq",
+	"fo.AcknowledgedSeq": "R acknowledgedSeq", "acknowledgedSeq.Store": "W acknowledgedSeq",
+	"metaPage.PutUint64": "W metaPage", "metaPage.ReadUint64": "R metaPage", "metaPage.Sync": "C msync",
+	"q.Queue().AppendedSeq": "R queue.appendedSeq", "queue.AppendedSeq": "R queue.appendedSeq",
+	"q.Queue().AcknowledgedSeq": "R queue.acknowledgedSeq",
+	"queue.SetAcknowledgedSeq":  "W queue.acknowledgedSeq", "queue.SetAppendedSeq": "W queue.appendedSeq",
+	"fo.SetSeq": "C SetSeq", "f.consume": "C consume", "f.Queue().Queue().NotEmpty": "C NotEmpty",
+	"newConsumerGroupFunc": "C NewConsumerGroup", "consumerGroup.Close": "C Close", "delete": "W consumerGroups",
+}
+
+func c06AccessWith(fd *ast.FuncDecl, classify map[string]string) []string {
 	var out []string
 	held := "-"
 	for _, c := range CallSeq(fd) {
@@ -470,6 +482,16 @@ func init() {
 			{"stopGroup", FindFunc(fo, "fanOutQueue", "StopConsumerGroup")},
 		} {
 			sb.WriteString("def " + f.lean + "Access : List (String × String × String) := " + c06TripleList(c06Access(f.fd)) + "\n")
+		}
+		// the queue's own positions: SetAcknowledgedSeq / SetAppendedSeq under rwMutex (Model/C06Msync.lean)
+		for _, f := range []fn{
+			{"queueSetAck", FindFunc(qu, "queue", "SetAcknowledgedSeq")},
+			{"queueSetAppended", FindFunc(qu, "queue", "SetAppendedSeq")},
+		} {
+			if f.fd == nil {
+				return "", fmt.Errorf("queue.%s not found", f.lean)
+			}
+			sb.WriteString("def " + f.lean + "Access : List (String × String × String) := " + c06TripleList(c06AccessWith(f.fd, c06QueueClassify)) + "\n")
 		}
 		// meta page layout: which value goes to which offset, in store order
 		for _, f := range []fn{
